@@ -20,7 +20,7 @@ type pool[T signal.SignalTypes] struct {
 }
 
 func (p *pool[T]) Copy() Pool {
-	return &pool[T]{ty: p.ty, p: p.p, byValue: p.byValue, own: true}
+	return &pool[T]{ty: p.ty, p: p.p, byValue: *p.p, own: true} // copied now, whatever state the allocator is in
 }
 
 func (p *pool[T]) Get(byValue bool) View {
@@ -30,7 +30,7 @@ func (p *pool[T]) Get(byValue bool) View {
 		b = p.byValue.Get() // this handle's own persistent copy of the value
 		end()
 	} else if byValue {
-		cp := p.byValue
+		cp := *p.p // a copy of the allocator value as it is NOW (a value receiver, a struct passed by value)
 		begin()
 		b = cp.Get()
 		end()
@@ -49,7 +49,7 @@ func (p *pool[T]) Put(v View, byValue bool) {
 		p.byValue.Put(b)
 		end()
 	} else if byValue {
-		cp := p.byValue
+		cp := *p.p
 		begin()
 		cp.Put(b)
 		end()
